@@ -131,6 +131,25 @@ def run(ctx):
                 pvlib.report_violation(ctx, f"sched-values:{kind}:{' '.join(args)}:{ch}", rp,
                                        summary=f"pcq {' '.join(args)} under schedule {ch}: consumers received {got!r}, the LTS (FIFO) says {want!r}")
 
+    # ---- the REAL util::Semaphore under interrupted waits.  The controlled scheduler above replaces the semaphore through the
+    # pv_sem_* hooks (that is how it owns the interleaving), so it never runs the lines of Semaphore::wait() that deal with EINTR.
+    # harness/implsig runs the queues on the real semaphore while SIGUSR1 (handler without SA_RESTART) is sent to both threads every
+    # few microseconds: a wait that was interrupted is not an acquisition - every item still arrives once, in order.
+    sig = os.path.join(ctx.bdir, "harness", "implsig")
+    sops = [f"sig.pcq {c_} {n_} {ctx.seed * 10 + k_} {iv_}" for k_, (c_, n_, iv_) in enumerate([(1, 20000, 50), (2, 20000, 50), (16, 50000, 20)] + ([] if ctx.tier == "quick" else [(3, 200000, 10), (64, 500000, 30)]))]
+    sops += [f"sig.usq {n_} {ctx.seed * 10 + 7} {iv_}" for n_, iv_ in ([(50000, 50)] if ctx.tier == "quick" else [(50000, 50), (1000000, 15)])]
+    for o in sops:
+        try:
+            x = pvlib.run_lines(sig, [o], env=pvlib.san_env(), timeout=120, stall=60)[0]
+        except Exception as e:
+            x = "HANG " + repr(e)[:100]
+        ctx.count("real-semaphore-under-signals", 1, [o])
+        ctx.cov.setdefault("signals_delivered", []).append(x.split("signals=")[-1] if "signals=" in x else "?")
+        if not x.startswith("ok fifo " + o.split()[2 if o.startswith("sig.pcq") else 1] + " "):
+            pvlib.report_violation(ctx, "queue-under-signals:" + o, {"ops": [o], "impl": x[:300], "rerun": f"echo '{o}' | harness/implsig"},
+                                   summary=f"{o} (real semaphores, SIGUSR1 without SA_RESTART sent to both threads): {x[:120]}; every item must arrive once, in order")
+            break
+
 
 def replay(ctx, rp):
     exe = os.path.join(ctx.bdir, "harness", "implsched")
